@@ -450,6 +450,10 @@ Inductive c19_case :=
       observations of all its operations merged into one: worst result code, every batch at
       entry of the write function, Close returned, every batch at return, and the stall
       observation of the OFull operation *)
+| CCrash (kind : N)
+   (* the process running the writer died while the harness ran a case (the harness recovers a
+      panic of a WriteEvent call in the calling goroutine, so this is a panic or fatal error in a
+      goroutine the writer itself started); kind 1: "send on closed channel", 0: anything else *)
 | CRace (mode : N) (trials : N) (hangs : N) (lost : N).
    (* unforced races of Close against the writer: mode 1 = right after construction, 2 = against
       the return of the write function; hangs = trials in which Close never returned with the
@@ -469,6 +473,9 @@ Definition corr19 (c : c19_case) : bool :=
          C19_full_accepts_all_in_order) *)
       list_eqb omsg_eqb (concat bs) (map omsg_of (accepted s0 ++ map msg_of_pub l))
     end
+  | CCrash _ => false
+    (* the only panic of the model is a producer's own send on the closed channel
+       (C19_panic_only_after_close), and that one stays in the calling goroutine *)
   | CRace _ _ hangs _ =>
     (* with the released flag the model has no hanging schedule (C19_close_terminates); without
        it both outcomes are behaviours of the model *)
@@ -634,6 +641,7 @@ Definition mon19 (c : c19_case) : N :=
   match c with
   | CSched ops obs => mon_sched ops obs
   | CFull pre l o => mon_sched (pre ++ [OFull l; OClose]) [o]
+  | CCrash _ => 12
   | CRace _ _ hangs lost => if 0 <? lost then 4 else if 0 <? hangs then 10 else 0
   end.
 
@@ -648,6 +656,7 @@ Fixpoint state_at_close (ops : list op) (s : st) : option st :=
 Definition tag19 (c : c19_case) : N :=
   match c with
   | CRace mode _ _ _ => 20 + mode
+  | CCrash kind => 50 + kind
   | CFull _ l o => if fst (o_stall o) <? Nlen l then 41 else 40
       (* 41: the channel was full and producers waited for the batching loop; 40: the burst fitted *)
   | CSched ops obs =>
